@@ -138,7 +138,7 @@ func (e *seqEngine) indexRecordsSince(fileNum uint32, length int64) []string {
 }
 
 func (e *seqEngine) Exec(op *Op) string {
-	if e.st == nil && op.Name != "open" && op.Name != "disk" && op.Name != "rmsnap" && op.Name != "badsnap" {
+	if e.st == nil && op.Name != "open" && op.Name != "disk" && op.Name != "rmsnap" && op.Name != "badsnap" && op.Name != "legacy" {
 		return "bad-op"
 	}
 	switch op.Name {
@@ -393,6 +393,67 @@ func (e *seqEngine) Exec(op *Op) string {
 		}
 		sort.Strings(fl)
 		return "cur=" + strings.Join(cur, ",") + " fl=" + strings.Join(fl, ",")
+	case "legacy":
+		// write a store in the legacy single-file formats into a fresh directory (C10); the next open upgrades it
+		if e.st != nil {
+			return "bad-op"
+		}
+		if e.dir == "" {
+			dir, err := os.MkdirTemp("", "sthv-seq-")
+			if err != nil {
+				return "err"
+			}
+			e.dir = dir
+			e.indexPath = filepath.Join(dir, "storethehash.index")
+			e.dataPath = filepath.Join(dir, "storethehash.data")
+		}
+		bits, _ := strconv.Atoi(op.Arg("bits"))
+		recs := parseRecs(op.Arg("recs"))
+		offs, err := writeLegacyStore(e.indexPath, e.dataPath, bits, recs, parseIdxSet(op.Arg("freed")), parseIdxSet(op.Arg("bad")), parseIdxSet(op.Arg("gone")), op.Arg("stale") == "1")
+		if err != nil {
+			return "err"
+		}
+		e.lastBits = bits
+		strs := make([]string, len(offs))
+		for i, o := range offs {
+			strs[i] = strconv.FormatInt(o, 10)
+		}
+		return "ok offsets=" + strings.Join(strs, ",")
+	case "chunks":
+		// sizes of the numbered index and primary files, and where the index points for each given key
+		var sb strings.Builder
+		sizesOf := func(base string) string {
+			var out []string
+			for n := 0; ; n++ {
+				fi, err := os.Stat(fmt.Sprintf("%s.%d", base, n))
+				if err != nil {
+					break
+				}
+				out = append(out, strconv.FormatInt(fi.Size(), 10))
+			}
+			return strings.Join(out, ",")
+		}
+		sb.WriteString("psizes=" + sizesOf(e.dataPath) + " isizes=" + sizesOf(e.indexPath) + " locs=")
+		for i, kh := range strings.Split(op.Arg("k"), ",") {
+			if i > 0 {
+				sb.WriteByte(',')
+			}
+			k, _ := hex.DecodeString(kh)
+			ik, err := e.st.Primary().IndexKey(k)
+			if err != nil {
+				sb.WriteString("bad")
+				continue
+			}
+			blk, found, err := e.st.Index().Get(ik)
+			if err != nil {
+				sb.WriteString("err")
+			} else if !found {
+				sb.WriteString("none")
+			} else {
+				fmt.Fprintf(&sb, "%d:%d", blk.Offset, blk.Size)
+			}
+		}
+		return sb.String()
 	case "fsck":
 		// C07: full directory bytes plus the live bucket table, for the Lean fsck
 		files := readDirFiles(e.dir)
